@@ -768,7 +768,7 @@ def createInternalClassString (env : Env) : Nat → String → String → List S
       | .error e => throwG e : G Class)
     let (methodsText, existing) ← createClassMethodString env sc.methods inner true alreadyDefined
     let innerText ← innerClassesG (fun ic => createClassString env fuel ic inner true)
-      (sc.classes.filter (fun ic => !isInternal ic.name))
+      (sc.classes.filter (fun ic => !isInternal ic.name && !alreadyDefined.contains ic.name))
     let alreadyDefined' := unionSet alreadyDefined existing
     let rest ← internalSupersG (fun ss => createInternalClassString env fuel ss inner alreadyDefined') sc.superclasses
     pure (methodsText ++ innerText ++ rest)
